@@ -32,7 +32,8 @@ import dawgie.db.util
 PROPERTY = 'C07'
 BOUND = (
     'real shelve store + real md5sum/sha1sum; histories of <= 5 operations over {update of 2 values with contents from a pool of 4 '
-    '(repeating; one > 64 KiB), remove, purge tool, close/reopen} on 2 targets x 2 algorithms x runs {1,2}; crash injection before '
+    '(repeating; one > 64 KiB), remove, purge tool, close/reopen} on 2 targets x 2 algorithms x runs {1,2}, plus 6 fixed histories over three pairs of '
+    'large values (5 KB, 70 KB, 1 MiB pickles) that differ in their last byte only (names are the digest of ALL bytes); crash injection before '
     'every intercepted call k (tempfile.mkstemp, os.close, open, pickle.dump (also torn), os.chmod, subprocess.check_output x2, '
     'os.path.exists, os.unlink, shutil.move inside dawgie.db.util; Shelf.__setitem__/__delitem__ = every table write) of one '
     'update, all k, two crash modes (exception / fork+os._exit), for 6 fixed + 28 seeded random scenarios (thorough tier; the quick '
@@ -69,6 +70,13 @@ def content(ci):
         ('c', 1, 'text'),
         {'c': 2, 'big': bytes(range(256)) * 300},
         [3, {'c': 3}, None],
+        # pairs of large values that differ in their last bytes only (beyond 4 KiB, 64 KiB and 1 MiB of the pickle)
+        {'c': 4, 'big': bytes(5000) + b'A'},
+        {'c': 4, 'big': bytes(5000) + b'B'},
+        {'c': 4, 'big': bytes(70000) + b'A'},
+        {'c': 4, 'big': bytes(70000) + b'B'},
+        {'c': 4, 'big': bytes((1 << 20) + 5000) + b'A'},
+        {'c': 4, 'big': bytes((1 << 20) + 5000) + b'B'},
     ][ci]
 
 
@@ -163,7 +171,7 @@ def patch_injection_points():
 
     u = dawgie.db.util
     sc.fast_digest(False)  # C07 always runs the real md5sum / sha1sum
-    assert u.subprocess is subprocess
+    assert not sc._HAS_SUBPROCESS or u.subprocess is subprocess
     path = _Proxy(os.path, {'exists': _wrap(os.path.exists, 'os.path.exists')})
     u.os = _Proxy(
         os,
@@ -177,7 +185,8 @@ def patch_injection_points():
     u.shutil = _Proxy(shutil, {'move': _wrap(shutil.move, 'shutil.move')})
     u.tempfile = _Proxy(tempfile, {'mkstemp': _wrap(tempfile.mkstemp, 'tempfile.mkstemp')})
     u.pickle = _Proxy(pickle, {'dump': _torn_dump})
-    u.subprocess = _Proxy(subprocess, {'check_output': _wrap(subprocess.check_output, 'subprocess.check_output')})
+    if sc._HAS_SUBPROCESS:
+        u.subprocess = _Proxy(subprocess, {'check_output': _wrap(subprocess.check_output, 'subprocess.check_output')})
     u.open = _wrap(builtins.open, 'open')
     real_set = shelve.Shelf.__setitem__
     real_del = shelve.Shelf.__delitem__
@@ -283,6 +292,9 @@ class Auditor:
             ci = cis[VN.index(name.rsplit('.', 1)[1])]
             if self.blob_of.setdefault(ci, b) != b:
                 self.flag('C07.once', 'identical-content-under-two-names', {'at': where, 'op': op, 'content': ci, 'names': [self.blob_of[ci], b]}, 'one name per content')
+            others = sorted(c for c, bb in self.blob_of.items() if bb == b and c != ci)
+            if others:
+                self.flag('C07.name', 'different-contents-under-one-name', {'at': where, 'op': op, 'contents': [ci] + others, 'name': b}, 'different contents are stored under different names')
         if set(files) != stored:
             self.flag('C07.once', 'store-listing-unexpected', {'at': where, 'op': op, 'files': sorted(files)}, sorted(stored))
 
@@ -384,6 +396,9 @@ def enumerated_histories():
         for p2 in places:
             for c2 in conts:
                 yield {'kind': 'history', 'ops': [['update', 0, 0, 1, c1], ['update', *p2, c2], ['purge']]}
+    for a in (4, 6, 8):      # large values sharing all but their last bytes
+        yield {'kind': 'history', 'ops': [['update', 0, 0, 1, [a, a + 1]], ['update', 0, 1, 1, [a + 1, a]], ['purge']]}
+        yield {'kind': 'history', 'ops': [['update', 0, 0, 1, [a, None]], ['update', 0, 0, 2, [a + 1, None]], ['reopen'], ['update', 1, 1, 1, [a, a]]]}
 
 
 # --------------------------------------------------------------------------
